@@ -137,7 +137,7 @@ func pickOp(rt *rapid.T, p *Profile, label string) string {
 	return ops[0]
 }
 
-var opOrder = []string{"CloseControl", "Allocate", "Refresh", "CreatePermission", "ChannelBind", "Send", "ChannelData", "PeerData", "Binding", "Sleep", "RelayError", "CloseServer", "Connect", "ConnectionBind", "PeerConnect", "TCPData", "TCPClose", "Hostile"}
+var opOrder = []string{"CloseListenerSocket", "CloseControl", "Allocate", "Refresh", "CreatePermission", "ChannelBind", "Send", "ChannelData", "PeerData", "Binding", "Sleep", "RelayError", "CloseServer", "Connect", "ConnectionBind", "PeerConnect", "TCPData", "TCPClose", "Hostile"}
 
 func genLen(rt *rapid.T, p *Profile, label string) int {
 	if p.BigData {
